@@ -379,9 +379,9 @@ impl BuiltInFunction {
 
                 if let Some((result, _)) = result {
                     Ok((
-                        Some(Primitive::Optional(Some(Box::new(Primitive::Int(
+                        Some(Primitive::Int(
                             result.try_into().with_context(|| format!("vector index of element `{result}` could not fit in an int (i32)"))?,
-                        ))))),
+                        )),
                         None,
                     ))
                 } else {
@@ -462,9 +462,9 @@ impl BuiltInFunction {
 
                 if let Some(start) = s.find(o) {
                     Ok((
-                        Some(Primitive::Optional(Some(Box::new(Primitive::Int(
+                        Some(Primitive::Int(
                             start.try_into().with_context(|| format!("index of found string pattern `{start}` could not fit in an int (i32)"))?,
-                        ))))),
+                        )),
                         None,
                     ))
                 } else {
@@ -580,7 +580,7 @@ impl BuiltInFunction {
 
                 if let Ok(num) = s.parse::<i32>() {
                     Ok((
-                        Some(Primitive::Optional(Some(Box::new(Primitive::Int(num))))),
+                        Some(Primitive::Int(num)),
                         None,
                     ))
                 } else {
@@ -600,7 +600,7 @@ impl BuiltInFunction {
 
                 if let Ok(num) = s.parse::<i128>() {
                     Ok((
-                        Some(Primitive::Optional(Some(Box::new(Primitive::BigInt(num))))),
+                        Some(Primitive::BigInt(num)),
                         None,
                     ))
                 } else {
@@ -629,7 +629,7 @@ impl BuiltInFunction {
                         .with_context(|| format!("`{radix}` is an invalid radix"))?,
                 ) {
                     Ok((
-                        Some(Primitive::Optional(Some(Box::new(Primitive::Int(num))))),
+                        Some(Primitive::Int(num)),
                         None,
                     ))
                 } else {
@@ -658,7 +658,7 @@ impl BuiltInFunction {
                         .with_context(|| format!("`{radix}` is an invalid radix"))?,
                 ) {
                     Ok((
-                        Some(Primitive::Optional(Some(Box::new(Primitive::BigInt(num))))),
+                        Some(Primitive::BigInt(num)),
                         None,
                     ))
                 } else {
@@ -672,7 +672,7 @@ impl BuiltInFunction {
 
                 if let Ok(b) = s.parse::<bool>() {
                     Ok((
-                        Some(Primitive::Optional(Some(Box::new(Primitive::Bool(b))))),
+                        Some(Primitive::Bool(b)),
                         None,
                     ))
                 } else {
@@ -686,7 +686,7 @@ impl BuiltInFunction {
 
                 if let Ok(num) = s.parse::<f64>() {
                     Ok((
-                        Some(Primitive::Optional(Some(Box::new(Primitive::Float(num))))),
+                        Some(Primitive::Float(num)),
                         None,
                     ))
                 } else {
@@ -706,7 +706,7 @@ impl BuiltInFunction {
 
                 if let Ok(num) = u8::from_str_radix(s, radix) {
                     Ok((
-                        Some(Primitive::Optional(Some(Box::new(Primitive::Byte(num))))),
+                        Some(Primitive::Byte(num)),
                         None,
                     ))
                 } else {
